@@ -45,6 +45,20 @@ inductive GSlot
   | value (v : GVal)
 deriving DecidableEq, Repr
 
+/-- How a `ProxyFuture` special method reaches the future's result (kernel K8). -/
+inductive PKind
+  | binop (sym : String)           -- `return self.__result <sym> other`   (full operator protocol on the result)
+  | unop (sym : String)            -- `return <sym> self.__result`
+  | builtin (name : String)        -- `return name(self.__result, …)`      (full builtin protocol on the result)
+  | subscript (mode : String)      -- `self.__result[key]` get / set / del
+  | contains                       -- `item in self.__result`
+  | getattr (guarded : Bool)       -- `getattr(self.__result, name)`; guarded = `__x` names raise AttributeError first
+  | directDunder (name : String)   -- `return self.__result.__name__(…)`   (NO fall-back: differs from the operator)
+  | const                          -- never touches the result
+  | selfCall (name : String)       -- delegates to another method of the proxy
+  | other (what : String)
+deriving DecidableEq, Repr
+
 def listFoldMin : List Nat → Nat
   | [] => 0
   | [x] => x
